@@ -66,3 +66,5 @@ def run(ctx):
     ctx.floor("V3", 9)
     ctx.floor("V4", 4)
     ctx.floor("V6", 8)
+    V.v17_quotient_bookkeeping(ctx)
+    ctx.floor("V17", 2)
